@@ -1184,4 +1184,336 @@ theorem deep_deser_head_examples :
       [("inner", inner), ("arr", arr inner)] = ["inner", "arr"] := by
   decide
 
+/-! ### soundness of the path: the suffix chain of every rejection leads to a rejected position,
+    at any nesting depth (mutual structural induction over the declaration tree) -/
+
+/-- `Reaches f v p g w`: following the suffix chain `p` from the value `v` of declaration `f`
+    (element `i` for `_<i>`, some entry's key / value for `_key` / `_value`, some element of a Set
+    for nothing) leads to the value `w` at declaration `g` -/
+inductive Reaches : FieldDecl → PyVal → SufPath → FieldDecl → PyVal → Prop
+  | here (f : FieldDecl) (v : PyVal) : Reaches f v [] f v
+  | seqOf {k : SeqKind} {item : FieldDecl} {sz : SizeOpts} {v : PyVal} {xs : List PyVal} {i : Nat}
+      {x : PyVal} {p : SufPath} {g : FieldDecl} {w : PyVal} :
+      seqElems k v = some xs → xs[i]? = some x → Reaches item x p g w →
+      Reaches (.seqOf k item sz) v (.idx i :: p) g w
+  | seqPos {k : SeqKind} {fs : List FieldDecl} {addl : Bool} {sz : SizeOpts} {v : PyVal}
+      {xs : List PyVal} {i : Nat} {f : FieldDecl} {x : PyVal} {p : SufPath} {g : FieldDecl} {w : PyVal} :
+      seqElems k v = some xs → fs[i]? = some f → xs[i]? = some x → Reaches f x p g w →
+      Reaches (.seqPos k fs addl sz) v (.idx i :: p) g w
+  | tupleOf {item : FieldDecl} {uniq : Bool} {xs : List PyVal} {i : Nat}
+      {x : PyVal} {p : SufPath} {g : FieldDecl} {w : PyVal} :
+      xs[i]? = some x → Reaches item x p g w →
+      Reaches (.tupleOf item uniq) (.tuple xs) (.idx i :: p) g w
+  | tuplePos {fs : List FieldDecl} {uniq : Bool} {xs : List PyVal} {i : Nat} {f : FieldDecl}
+      {x : PyVal} {p : SufPath} {g : FieldDecl} {w : PyVal} :
+      fs[i]? = some f → xs[i]? = some x → Reaches f x p g w →
+      Reaches (.tuplePos fs uniq) (.tuple xs) (.idx i :: p) g w
+  | setOf {imm : Bool} {item : FieldDecl} {sz : SizeOpts} {fr : Bool} {xs : List PyVal}
+      {x : PyVal} {p : SufPath} {g : FieldDecl} {w : PyVal} :
+      x ∈ xs → Reaches item x p g w → Reaches (.setOf imm item sz) (.set fr xs) p g w
+  | mapKey {kf vf : FieldDecl} {sz : SizeOpts} {kvs : List (PyVal × PyVal)} {k x : PyVal}
+      {p : SufPath} {g : FieldDecl} {w : PyVal} :
+      (k, x) ∈ kvs → Reaches kf k p g w → Reaches (.mapOf kf vf sz) (.dict kvs) (.key :: p) g w
+  | mapVal {kf vf : FieldDecl} {sz : SizeOpts} {kvs : List (PyVal × PyVal)} {k x : PyVal}
+      {p : SufPath} {g : FieldDecl} {w : PyVal} :
+      (k, x) ∈ kvs → Reaches vf x p g w → Reaches (.mapOf kf vf sz) (.dict kvs) (.val :: p) g w
+
+theorem firstBad_spec (O : Oracles) (f : FieldDecl) : ∀ (xs : List PyVal) (n i : Nat) (x : PyVal),
+    firstBad O f n xs = some (i, x) →
+      ∃ j, i = n + j ∧ xs[j]? = some x ∧ isOk (validate O f x) = false := by
+  intro xs
+  induction xs with
+  | nil => intro n i x h; simp [firstBad] at h
+  | cons y ys ih =>
+    intro n i x h
+    simp only [firstBad] at h
+    split at h
+    · obtain ⟨j, hj, hx, hb⟩ := ih (n + 1) i x h
+      exact ⟨j + 1, by omega, by simpa using hx, hb⟩
+    · rename_i hy
+      simp only [Option.some.injEq, Prod.mk.injEq] at h
+      obtain ⟨h1, h2⟩ := h
+      subst h1; subst h2
+      exact ⟨0, rfl, rfl, by simpa using hy⟩
+
+theorem badOf_spec (O : Oracles) (f : FieldDecl) (loc : PyVal → Loc) (xs : List PyVal) (l : Loc)
+    (h : badOf O f loc xs = some l) :
+    ∃ i x, xs[i]? = some x ∧ isOk (validate O f x) = false ∧ l = withSuffix (.idx i) (loc x) := by
+  simp only [badOf, Option.map_eq_some_iff] at h
+  obtain ⟨⟨i, x⟩, hfb, hl⟩ := h
+  obtain ⟨j, hj, hx, hb⟩ := firstBad_spec O f xs 0 i x hfb
+  refine ⟨i, x, ?_, hb, hl.symm⟩
+  have : i = j := by omega
+  rw [this]; exact hx
+
+theorem locSeqLike_cases (xs? : Option (List PyVal)) (uniq : Bool) (sz : SizeOpts)
+    (pre : List PyVal → Bool) (bad : List PyVal → Option Loc) :
+    (locSeqLike xs? uniq sz pre bad).suffix = [] ∨
+      ∃ xs l, xs? = some xs ∧ bad xs = some l ∧ locSeqLike xs? uniq sz pre bad = l := by
+  unfold locSeqLike
+  cases xs? with
+  | none => left; rfl
+  | some xs =>
+    simp only []
+    split
+    · left; rfl
+    · split
+      · left; rfl
+      · split
+        · left; rfl
+        · cases hb : bad xs with
+          | none => left; rfl
+          | some l => right; exact ⟨xs, l, rfl, hb, rfl⟩
+
+theorem firstBadEntry_spec (O : Oracles) (kf vf : FieldDecl) (lk lv : PyVal → Loc) :
+    ∀ (kvs : List (PyVal × PyVal)) (l : Loc), firstBadEntry O kf vf lk lv kvs = some l →
+      ∃ k x, (k, x) ∈ kvs ∧
+        ((isOk (validate O kf k) = false ∧ l = withSuffix .key (lk k)) ∨
+         (isOk (validate O vf x) = false ∧ l = withSuffix .val (lv x))) := by
+  intro kvs
+  induction kvs with
+  | nil => intro l h; simp [firstBadEntry] at h
+  | cons kv rest ih =>
+    intro l h
+    obtain ⟨k, x⟩ := kv
+    simp only [firstBadEntry] at h
+    split at h
+    · rename_i hk
+      simp only [Option.some.injEq] at h
+      exact ⟨k, x, List.mem_cons_self, Or.inl ⟨by simpa using hk, h.symm⟩⟩
+    · split at h
+      · rename_i hx
+        simp only [Option.some.injEq] at h
+        exact ⟨k, x, List.mem_cons_self, Or.inr ⟨by simpa using hx, h.symm⟩⟩
+      · obtain ⟨k', x', hm, hh⟩ := ih l h
+        exact ⟨k', x', List.mem_cons_of_mem _ hm, hh⟩
+
+theorem locSet_cases (O : Oracles) (item : FieldDecl) (loc : PyVal → Loc) (sz : SizeOpts) (v : PyVal) :
+    (locSet O (some (item, loc)) sz v).suffix = [] ∨
+      ∃ fr xs x, v = .set fr xs ∧ x ∈ xs ∧ isOk (validate O item x) = false ∧
+        locSet O (some (item, loc)) sz v = loc x := by
+  unfold locSet
+  cases v <;> try (left; rfl)
+  rename_i fr xs
+  simp only []
+  split
+  · left; rfl
+  · simp only [Option.bind_some]
+    cases hfb : firstBad O item 0 xs with
+    | none => left; rfl
+    | some ix =>
+      obtain ⟨i, x⟩ := ix
+      obtain ⟨j, _, hx, hb⟩ := firstBad_spec O item xs 0 i x hfb
+      right
+      refine ⟨fr, xs, x, rfl, List.mem_of_getElem? hx, hb, ?_⟩
+      simp
+
+theorem locMap_cases (O : Oracles) (g : List (PyVal × PyVal) → Option Loc) (sz : SizeOpts) (v : PyVal) :
+    (locMap O (some g) sz v).suffix = [] ∨
+      ∃ kvs l, v = .dict kvs ∧ g kvs = some l ∧ locMap O (some g) sz v = l := by
+  unfold locMap
+  cases v <;> try (left; rfl)
+  rename_i kvs
+  simp only []
+  split
+  · left; rfl
+  · simp only [Option.bind_some]
+    cases hg : g kvs with
+    | none => left; rfl
+    | some l => right; exact ⟨kvs, l, rfl, hg, rfl⟩
+
+
+/-- the conclusion of `locate_sound` -/
+def PointsAtRejection (O : Oracles) (f : FieldDecl) (v : PyVal) (p : SufPath) : Prop :=
+  ∃ g w, Reaches f v p g w ∧ isOk (validate O g w) = false
+
+theorem points_here (O : Oracles) (f : FieldDecl) (v : PyVal) (p : SufPath)
+    (h : isOk (validate O f v) = false) (hp : p = []) : PointsAtRejection O f v p :=
+  ⟨f, v, hp ▸ Reaches.here f v, h⟩
+
+mutual
+/-- SOUNDNESS OF THE PATH, every declaration, any depth: when `validate` rejects `v`, the suffix
+    chain computed by `locate` leads — element by element, key / value by key / value — to a
+    position that exists in `v` and whose value is rejected by the declaration at that position -/
+theorem locate_sound (O : Oracles) : ∀ (f : FieldDecl) (v : PyVal),
+    isOk (validate O f v) = false → PointsAtRejection O f v (locate O f v).suffix
+  | .number o, v, h => points_here O _ v _ h (by simp only [locate, locScalar])
+  | .integer o, v, h => points_here O _ v _ h (by simp only [locate, locScalar]; cases v <;> rfl)
+  | .float o, v, h => points_here O _ v _ h (by simp only [locate, locScalar]; cases v <;> rfl)
+  | .string a b c, v, h => points_here O _ v _ h (by simp only [locate, locScalar])
+  | .boolean, v, h => points_here O _ v _ h (by simp only [locate, locScalar])
+  | .enumLit vs, v, h => points_here O _ v _ h (by simp only [locate, locScalar])
+  | .enumCls c ns, v, h => points_here O _ v _ h (by simp only [locate, locScalar])
+  | .seqAny k sz, v, h => by
+    refine points_here O _ v _ h ?_
+    simp only [locate]
+    cases locSeqLike_cases (seqElems k v) sz.uniq sz (fun _ => true) (fun _ => none) with
+    | inl h0 => exact h0
+    | inr h1 => obtain ⟨_, _, _, hb, _⟩ := h1; simp at hb
+  | .seqOf k item sz, v, h => by
+    simp only [locate]
+    cases locSeqLike_cases (seqElems k v) sz.uniq sz (fun _ => true) (badOf O item (locate O item)) with
+    | inl h0 => exact points_here O _ v _ h h0
+    | inr h1 =>
+      obtain ⟨xs, l, hxs, hb, hl⟩ := h1
+      obtain ⟨i, x, hx, hbad, hl'⟩ := badOf_spec O item _ xs l hb
+      obtain ⟨g, w, hr, hw⟩ := locate_sound O item x hbad
+      rw [hl, hl']
+      exact ⟨g, w, Reaches.seqOf hxs hx hr, hw⟩
+  | .seqPos k fs addl sz, v, h => by
+    simp only [locate]
+    cases locSeqLike_cases (seqElems k v) sz.uniq sz
+        (fun xs => decide (fs.length ≤ xs.length) && (addl || decide (xs.length ≤ fs.length)))
+        (locateZip O 0 fs) with
+    | inl h0 => exact points_here O _ v _ h h0
+    | inr h1 =>
+      obtain ⟨xs, l, hxs, hb, hl⟩ := h1
+      obtain ⟨j, f, x, p, g, w, hf, hx, hp, hr, hw⟩ := locateZip_sound O fs xs 0 l hb
+      rw [hl, hp]
+      simp only [Nat.zero_add]
+      exact ⟨g, w, Reaches.seqPos hxs hf hx hr, hw⟩
+  | .setAny imm sz, v, h => by
+    refine points_here O _ v _ h ?_
+    simp only [locate, locSet]
+    cases v <;> try rfl
+    simp only []
+    split <;> rfl
+  | .setOf imm item sz, v, h => by
+    simp only [locate]
+    cases locSet_cases O item (locate O item) sz v with
+    | inl h0 => exact points_here O _ v _ h h0
+    | inr h1 =>
+      obtain ⟨fr, xs, x, hv, hx, hbad, hl⟩ := h1
+      obtain ⟨g, w, hr, hw⟩ := locate_sound O item x hbad
+      rw [hl, hv]
+      exact ⟨g, w, Reaches.setOf hx hr, hw⟩
+  | .tupleOf item uniq, v, h => by
+    simp only [locate]
+    cases locSeqLike_cases (tupleElems v) uniq {} (fun _ => true) (badOf O item (locate O item)) with
+    | inl h0 => exact points_here O _ v _ h h0
+    | inr h1 =>
+      obtain ⟨xs, l, hxs, hb, hl⟩ := h1
+      obtain ⟨i, x, hx, hbad, hl'⟩ := badOf_spec O item _ xs l hb
+      obtain ⟨g, w, hr, hw⟩ := locate_sound O item x hbad
+      rw [hl, hl']
+      have hv : v = .tuple xs := by
+        cases v <;> simp [tupleElems] at hxs
+        rw [hxs]
+      rw [hv]
+      exact ⟨g, w, Reaches.tupleOf hx hr, hw⟩
+  | .tuplePos fs uniq, v, h => by
+    simp only [locate]
+    cases locSeqLike_cases (tupleElems v) uniq {} (fun xs => fs.length == xs.length) (locateZip O 0 fs) with
+    | inl h0 => exact points_here O _ v _ h h0
+    | inr h1 =>
+      obtain ⟨xs, l, hxs, hb, hl⟩ := h1
+      obtain ⟨j, f, x, p, g, w, hf, hx, hp, hr, hw⟩ := locateZip_sound O fs xs 0 l hb
+      rw [hl, hp]
+      simp only [Nat.zero_add]
+      have hv : v = .tuple xs := by
+        cases v <;> simp [tupleElems] at hxs
+        rw [hxs]
+      rw [hv]
+      exact ⟨g, w, Reaches.tuplePos hf hx hr, hw⟩
+  | .mapAny sz, v, h => by
+    refine points_here O _ v _ h ?_
+    simp only [locate, locMap]
+    cases v <;> try rfl
+    simp only []
+    split <;> rfl
+  | .mapOf kf vf sz, v, h => by
+    simp only [locate]
+    cases locMap_cases O (firstBadEntry O kf vf (locate O kf) (locate O vf)) sz v with
+    | inl h0 => exact points_here O _ v _ h h0
+    | inr h1 =>
+      obtain ⟨kvs, l, hv, hg, hl⟩ := h1
+      obtain ⟨k, x, hm, hh⟩ := firstBadEntry_spec O kf vf _ _ kvs l hg
+      rw [hl, hv]
+      cases hh with
+      | inl hk =>
+        obtain ⟨g, w, hr, hw⟩ := locate_sound O kf k hk.1
+        rw [hk.2]
+        exact ⟨g, w, Reaches.mapKey hm hr, hw⟩
+      | inr hx =>
+        obtain ⟨g, w, hr, hw⟩ := locate_sound O vf x hx.1
+        rw [hx.2]
+        exact ⟨g, w, Reaches.mapVal hm hr, hw⟩
+  | .struct c fields defaults, v, h => points_here O _ v _ h (by simp only [locate])
+  | .anyOf fs, v, h => points_here O _ v _ h (by simp only [locate])
+  | .oneOf fs, v, h => points_here O _ v _ h (by simp only [locate])
+  | .allOf fs, v, h => points_here O _ v _ h (by simp only [locate])
+  | .notF fs, v, h => points_here O _ v _ h (by simp only [locate])
+  | .noneF, v, h => points_here O _ v _ h (by simp only [locate])
+  | .anything, v, h => points_here O _ v _ h (by simp only [locate])
+
+theorem locateZip_sound (O : Oracles) : ∀ (fs : List FieldDecl) (xs : List PyVal) (n : Nat) (l : Loc),
+    locateZip O n fs xs = some l →
+      ∃ (j : Nat) (f : FieldDecl) (x : PyVal) (p : SufPath) (g : FieldDecl) (w : PyVal),
+        fs[j]? = some f ∧ xs[j]? = some x ∧ l.suffix = .idx (n + j) :: p ∧ Reaches f x p g w ∧
+          isOk (validate O g w) = false
+  | [], xs, n, l, h => by simp [locateZip] at h
+  | _ :: _, [], n, l, h => by simp [locateZip] at h
+  | f :: fs, x :: xs, n, l, h => by
+    simp only [locateZip] at h
+    split at h
+    · obtain ⟨j, f', x', p, g, w, hf, hx, hp, hr, hw⟩ := locateZip_sound O fs xs (n + 1) l h
+      exact ⟨j + 1, f', x', p, g, w, by simpa using hf, by simpa using hx,
+        by rw [hp]; congr 2; omega, hr, hw⟩
+    · rename_i hbad
+      simp only [Option.some.injEq] at h
+      obtain ⟨g, w, hr, hw⟩ := locate_sound O f x (by simpa using hbad)
+      exact ⟨0, f, x, _, g, w, rfl, rfl, by rw [← h]; rfl, hr, hw⟩
+end
+
+
+/-- … for every message of `cls(**kw)`: the path `<top><suffix chain>` of every rejection site
+    names a declared field that was supplied, and its suffix chain leads to a rejected position
+    inside the supplied value (every class, every declaration at any depth, both modes) -/
+theorem sites_point_at_rejections (O : Oracles) (c : ClassOpts) (kw : List (String × PyVal))
+    (fields : List (String × FieldDecl)) (s : Site) (hs : s ∈ sites O c kw fields) :
+    ∃ nf ∈ fields, ∃ v, s.top = nf.1 ∧ argFor c [] kw nf.1 = some v ∧
+      PointsAtRejection O nf.2 v s.loc.suffix := by
+  induction fields with
+  | nil => simp [sites] at hs
+  | cons nf rest ih =>
+    obtain ⟨name, f⟩ := nf
+    simp only [sites] at hs
+    cases ha : argFor c [] kw name with
+    | none =>
+      rw [ha] at hs
+      obtain ⟨x, hx, h⟩ := ih hs
+      exact ⟨x, List.mem_cons_of_mem _ hx, h⟩
+    | some v =>
+      rw [ha] at hs
+      dsimp only at hs
+      cases hv : validate O f v with
+      | ok y =>
+        rw [hv] at hs
+        obtain ⟨x, hx, h⟩ := ih hs
+        exact ⟨x, List.mem_cons_of_mem _ hx, h⟩
+      | error e =>
+        rw [hv] at hs
+        cases hs with
+        | head =>
+          exact ⟨(name, f), List.mem_cons_self, v, rfl, ha,
+            locate_sound O f v (by rw [hv]; rfl)⟩
+        | tail _ h' =>
+          obtain ⟨x, hx, h⟩ := ih h'
+          exact ⟨x, List.mem_cons_of_mem _ hx, h⟩
+
+/-- non-vacuity: `Array[Array[Array[Integer(maximum=5)]]]` given `[[[1]], [[2], [3, 9]]]`: the
+    chain `_1_1_1` reaches the element `9` at the innermost `Integer`, which rejects it -/
+theorem locate_sound_example :
+    let int5 : FieldDecl := .integer { max := some (Q.ofInt 5) }
+    let arr (f : FieldDecl) : FieldDecl := .seqOf .list f {}
+    let v : PyVal := .list [.list [.list [.int 1]], .list [.list [.int 2], .list [.int 3, .int 9]]]
+    (locate exOracles (arr (arr (arr int5))) v).suffix = [.idx 1, .idx 1, .idx 1] ∧
+    Reaches (arr (arr (arr int5))) v [.idx 1, .idx 1, .idx 1] int5 (.int 9) ∧
+    isOk (validate exOracles int5 (.int 9)) = false := by
+  refine ⟨by decide, ?_, by decide⟩
+  exact Reaches.seqOf (xs := [.list [.list [.int 1]], .list [.list [.int 2], .list [.int 3, .int 9]]]) rfl rfl
+    (Reaches.seqOf (xs := [.list [.int 2], .list [.int 3, .int 9]]) rfl rfl
+      (Reaches.seqOf (xs := [.int 3, .int 9]) rfl rfl (Reaches.here _ _)))
+
+
 end Typedpy.C18
